@@ -25,7 +25,7 @@ AttrVariant == AttrForms \cup {It("skip", "word")}
 FieldDerives == {"FromMeta", "FromDeriveInput"}
 FieldShapes == {"named"}
 ContDerives == AllDerives
-ContShapes == {"named", "named_attrs", "unit", "newtype", "tuple2", "enum", "enum0", "union"}
+ContShapes == {"named", "named_attrs", "named0", "unit", "newtype", "tuple2", "tuple0", "enum", "enum0", "union"}
 EnumDerives == {"FromMeta"}
 EnumShapes == {"enum"}
 AttrShapes == {"named", "enum", "unit"}
